@@ -269,3 +269,99 @@ func Blocked(state string) bool {
 	return strings.HasPrefix(state, "chan ") || strings.HasPrefix(state, "select") ||
 		strings.HasPrefix(state, "semacquire") || strings.HasPrefix(state, "sync.")
 }
+
+// ---------------------------------------------------------------------------------------
+
+// VPart is a run of identical chunks in a Virtual stream.
+type VPart struct {
+	Data   []byte
+	Repeat int
+}
+
+// Virtual is a read-only stream made of repeated parts, served without materialising it: a
+// multi-gigabyte input in a few megabytes of memory. Start positions the stream.
+type Virtual struct {
+	Parts []VPart
+	pos   int64
+	bytes atomic.Int64
+}
+
+// Size returns the total length of the virtual stream.
+func (v *Virtual) Size() int64 {
+	var n int64
+	for _, p := range v.Parts {
+		n += int64(len(p.Data)) * int64(p.Repeat)
+	}
+	return n
+}
+
+// At returns a new reader over the same parts positioned at absolute offset off.
+func (v *Virtual) At(off int64) *Virtual { return &Virtual{Parts: v.Parts, pos: off} }
+
+func (v *Virtual) Read(p []byte) (int, error) {
+	n := 0
+	for n < len(p) {
+		// locate pos
+		off := v.pos
+		var src []byte
+		var within int64
+		found := false
+		for _, part := range v.Parts {
+			l := int64(len(part.Data)) * int64(part.Repeat)
+			if off < l {
+				within = off % int64(len(part.Data))
+				src = part.Data
+				found = true
+				break
+			}
+			off -= l
+		}
+		if !found {
+			if n == 0 {
+				return 0, io.EOF
+			}
+			break
+		}
+		c := copy(p[n:], src[within:])
+		n += c
+		v.pos += int64(c)
+	}
+	v.bytes.Add(int64(n))
+	return n, nil
+}
+
+// SeekReader is an io.ReadSeeker with ONE shared position (like an *os.File) and an optional
+// delay per Read; it records reads that arrive after a Seek from a stale user.
+type SeekReader struct {
+	Data  []byte
+	Delay time.Duration
+	mu    sync.Mutex
+	pos   int64
+	calls atomic.Int64
+}
+
+func (s *SeekReader) Read(p []byte) (int, error) {
+	s.calls.Add(1)
+	if s.Delay > 0 {
+		time.Sleep(s.Delay)
+	}
+	s.mu.Lock()
+	defer s.mu.Unlock()
+	if s.pos >= int64(len(s.Data)) {
+		return 0, io.EOF
+	}
+	n := copy(p, s.Data[s.pos:])
+	s.pos += int64(n)
+	return n, nil
+}
+
+// Seek implements io.Seeker (whence 0 only).
+func (s *SeekReader) Seek(off int64, whence int) (int64, error) {
+	s.mu.Lock()
+	defer s.mu.Unlock()
+	s.pos = off
+	return off, nil
+}
+
+// Calls returns the number of Read calls.
+func (s *SeekReader) Calls() int64 { return s.calls.Load() }
